@@ -29,6 +29,7 @@ def dispatch (j : Json) : R Json := do
   | "beads_model" => handleBeadsModel j
   | "populations" => handlePopulations j
   | "select_pairs" => handleSelectPairs j
+  | "selection" => handleSelection j
   | "sample_plan" => handleSamplePlan j
   | "process_table" => handleProcessTable j
   | "row_faults" => handleRowFaults j
